@@ -166,10 +166,13 @@ impl VouchedTime {
         //
         // We subtract base_time_ns, and add MAX_BACKWARD_DISCREPANCY_MS.  This maps the
         // allowed range to `[0, MAX_BACKWARD_DISCREPANCY_MS + MAX_FORWARD_DISCREPANCY_MS]`.
-        if local_time_ms
-            .wrapping_sub(base_time_ms)
-            .wrapping_add(MAX_BACKWARD_DISCREPANCY_MS)
-            <= MAX_BACKWARD_DISCREPANCY_MS + MAX_FORWARD_DISCREPANCY_MS
+        //
+        // The arithmetic is in i128: both times are arbitrary u64, so a wrapping u64
+        // subtraction would accept pairs that are 2^64 ms apart (modulo the window).
+        let shifted_delta =
+            local_time_ms as i128 - base_time_ms as i128 + MAX_BACKWARD_DISCREPANCY_MS as i128;
+        if (0..=(MAX_BACKWARD_DISCREPANCY_MS + MAX_FORWARD_DISCREPANCY_MS) as i128)
+            .contains(&shifted_delta)
         {
             return Ok(());
         }
